@@ -545,7 +545,7 @@ CLAIMED.update({
                  "values x every class subset of the flags: a well-formed value changes exactly the option's own field (clipped to the bounds in the code) and only when its class is enabled, a "
                  "malformed value is refused with -1 and changes nothing (strtol/strtod modelled with their C semantics); L - resolv_conf_parse_line evaluated on 17 line forms of resolv.conf(5) "
                  "x 5 flag sets performs exactly the documented actions (nameserver added, search domains in order, option/value pairs handed to the option table) and nothing for comments, "
-                 "unknown directives and missing arguments. Declined: memory safety of the file reader on arbitrary bytes, the hosts file, equality with a reference parser on all inputs. D (search domains): search_postfix_add on domains with 0..3 leading dots stores the text without them, with its own length, reading only the caller's string and writing only its block.",
+                 "unknown directives and missing arguments. Declined: memory safety of the file reader on arbitrary bytes, the hosts file, equality with a reference parser on all inputs. D (search domains): search_postfix_add on domains with 0..3 leading dots stores the text without them, with its own length, reading only the caller's string and writing only its block. N (names): str_matches_option on 15 token forms per option: a token names an option iff it is the name or the name followed by ':' and anything. H (hosts): evdns_base_parse_hosts_line on 18 hosts(5) line forms in byte memory adds exactly the line's names for its address (comments, blank lines, bad addresses and addresses with a port add nothing), names copied whole into blocks of their size. F (files): both file readers hand every line of the file to the line parser, in order, once, inside the buffer, and free the buffer once.",
          "note": STD_NOTE + ORDER_NOTE,
          "technique": "static analysis: documentation/code table agreement (K7), decision tables by evaluation of the extracted option and line parsers on abstract strings and an abstract heap (K6)"},
 })
@@ -566,3 +566,11 @@ CLAIMED.update({
          "note": STD_NOTE + ORDER_NOTE,
          "technique": "static analysis: decision tables by evaluation of the extracted transport callbacks over the finite domain of transfer results (K6), who-may-call over buffer-mutating calls (K2)"},
 })
+
+
+_more("C04", "Added (C04-changelist): the changelist decision table of C05 is part of this check too — a change dropped or cancelled there makes the backend report what nobody asked for.")
+_more("C10", "Added (C10-fresh): the deferred runners re-read callback pointers after every earlier user callback (C19's rule reused: a cached pointer is a use after release).")
+_more("C19", "Added (C19-refs): bufferevent_private.refcnt is initialised once, incremented only in the incref functions and decremented only in bufferevent_decref_and_unlock_ "
+             "(a second decrement site cannot know whether the deferred queue holds a reference).")
+_more("C20", "Added (C20-write-event): the socket write callback never removes the write event while output is left (it carries the write timeout); the decision table is C17's.")
+_more("C17", "Added: the socket write callback never removes the write event while output is left, for write low-water marks 0 and 64 (what is left would never be sent).")
